@@ -315,10 +315,12 @@ class JsonSchemaGenerator:
             if parser.output_options:
                 options = parser.output_options
 
-        for name, field in parser.fields.items():
+        for key, field in parser.fields.items():
             value = self.generate_for_field(field, options=options)
             if value is None:
                 continue
+            # the name the data uses (the key of parser.fields is lower-cased for a case-insensitive field)
+            name = field.name
             properties[name] = value
             if field.dependencies:
                 # a JSON array (sorted to stay identical), not a Python set
